@@ -443,9 +443,10 @@ class Date(FormattableMixin, date):
         Reset the date to the first day of the week.
         """
         dt = self
+        week_starts_at = pendulum._WEEK_STARTS_AT
 
-        if self.day_of_week != pendulum._WEEK_STARTS_AT:
-            dt = self.previous(pendulum._WEEK_STARTS_AT)
+        if self.day_of_week != week_starts_at:
+            dt = self.previous(week_starts_at)
 
         return dt.start_of("day")
 
@@ -454,9 +455,10 @@ class Date(FormattableMixin, date):
         Reset the date to the last day of the week.
         """
         dt = self
+        week_ends_at = pendulum._WEEK_ENDS_AT
 
-        if self.day_of_week != pendulum._WEEK_ENDS_AT:
-            dt = self.next(pendulum._WEEK_ENDS_AT)
+        if self.day_of_week != week_ends_at:
+            dt = self.next(week_ends_at)
 
         return dt.end_of("day")
 
